@@ -182,9 +182,12 @@ def dedup : List String → List String
   | [] => []
   | x :: xs => x :: (dedup xs).filter (· != x)
 
+/-- the names of the bindings that produced a value, in binding order (with repetitions) -/
+def boundNames (ts : List Tok) : List String :=
+  (bindsL ts).filterMap (fun b => if b.name != "" && b.value.isSome then some b.name else none)
+
 /-- the names that have a value at this level, in order of first binding -/
-def specKeys (ts : List Tok) : List String :=
-  dedup ((bindsL ts).filterMap (fun b => if b.name != "" && b.value.isSome then some b.name else none))
+def specKeys (ts : List Tok) : List String := dedup (boundNames ts)
 
 /-- `r[k]`: KeyError without value; all values in order for a list-all name; else the last value -/
 def specLookup (ts : List Tok) (k : String) : Except Err (View Tok) :=
